@@ -17,7 +17,7 @@ from __future__ import annotations
 
 import ast
 
-from engine.cfg import call_name, cfg_of
+from engine.cfg import call_name, cfg_of, expand_aliases
 from engine.errors import AnalysisError
 from engine.repo import walk_no_nested
 from engine.util import calls_in, unparse, xsrc
@@ -245,18 +245,24 @@ def run(ctx):  # noqa: C901, PLR0912, PLR0915
     ok, wit = _context_argument(cfg_of(cm), 'ssl_context', 'client_context', lambda a, b, u: not u)
     ctx.ob('C19.R2', 'consumer clients', ok, 'consumer SOAP clients get the client context whenever use_ssl is set', fi=cm,
            witness=wit)
-    gs = repo.func(f'{CO}.get_soap_client')
+    gs = expand_aliases(repo.func(f'{CO}.get_soap_client'))   # `pool = self._soap_clients` written out
     gg = cfg_of(gs)
     # symbolic expansion (locals written out in terms of self / parameters): names of temporaries do not matter
     mkc = gg.nodes_calling('_mk_soap_client')
     flag = 'self.is_ssl_connection is not False'
     ok = len(mkc) == 1 and bool(mkc[0][1].args) and gg.symbolic_text(mkc[0][0], mkc[0][1].args[0]) == flag
     # the client pool is keyed by that flag too (a TLS client is never handed out for a plaintext decision and vice versa)
-    keys = [gg.symbolic(n, n.stmt.targets[0].slice) for n in gg.real_nodes() if n.kind == 'stmt'
-            and isinstance(n.stmt, ast.Assign) and isinstance(n.stmt.targets[0], ast.Subscript)
-            and unparse(n.stmt.targets[0].value) == 'self._soap_clients']
-    keys += [gg.symbolic(n, c.args[0]) for n, c in gg.nodes_calling('get') if unparse(c.func.value) == 'self._soap_clients'
-             and c.args]
+    # every access to the pool: pool[key] (read or write), pool.get(key), key in pool
+    keys = []
+    for n in gg.real_nodes():
+        for a in n.walk():
+            if isinstance(a, ast.Subscript) and unparse(a.value) == 'self._soap_clients':
+                keys.append(gg.symbolic(n, a.slice))
+            elif isinstance(a, ast.Call) and call_name(a) == 'get' and unparse(a.func.value) == 'self._soap_clients' and a.args:
+                keys.append(gg.symbolic(n, a.args[0]))
+            elif isinstance(a, ast.Compare) and len(a.ops) == 1 and isinstance(a.ops[0], (ast.In, ast.NotIn)) and \
+                    unparse(a.comparators[0]) == 'self._soap_clients':
+                keys.append(gg.symbolic(n, a.left))
     ok = ok and len(keys) >= 2 and all(isinstance(k, ast.Tuple) and k.elts and unparse(k.elts[0]) == flag for k in keys) and \
         len({unparse(k) for k in keys}) == 1
     ctx.ob('C19.R2', 'use_ssl from the connection state', ok,
@@ -320,8 +326,18 @@ def run(ctx):  # noqa: C901, PLR0912, PLR0915
     cn = repo.func(f'{CO}._connect')
     g = cfg_of(cn)
     handlers = [n for n in g.nodes if n.kind == 'except']
+    # what the handler does to go on without TLS (a second connect) happens only where TLS was left undecided - the handler
+    # as a whole may sit inside that branch, or re-raise first when a decision exists
+    def _in_handler(node):
+        cur = getattr(node.stmt, '_parent', None) if node.stmt is not None else None
+        while cur is not None and cur is not cn.node:
+            if isinstance(cur, ast.ExceptHandler):
+                return True
+            cur = getattr(cur, '_parent', None)
+        return False
+    retries = [n for n, _c in g.nodes_calling('connect') if _in_handler(n)]
     ok = all('SSLError' in unparse(h.stmt.type) for h in handlers if h.stmt.type is not None) and bool(handlers) and \
-        all(('self.is_ssl_connection is None', True) in g.facts_at(h) for h in handlers)
+        bool(retries) and all(('self.is_ssl_connection is None', True) in g.facts_at(r) for r in retries)
     ctx.ob('C19.R3', 'plaintext retry only in the undecided case', ok,
            'the retry without TLS (on SSLError) exists only in the branch where TLS was optional', fi=cn)
 
